@@ -5,11 +5,11 @@
 package simk
 
 import (
-	"errors"
 	"fmt"
 	"os"
 	"path"
 	"strings"
+	"syscall"
 
 	"lcverif/c12"
 )
@@ -27,9 +27,12 @@ const (
 	MS_SLAVE   = 524288
 )
 
-var ErrNoEnt = errors.New("no such file or directory")
-var ErrInval = errors.New("invalid argument")
-var ErrBusy = errors.New("device or resource busy")
+// The errors are the errno values Linux returns (code under test may tell them apart):
+// ENOENT a path does not resolve, EINVAL not a mountpoint / bad arguments, EBUSY a mount has
+// children.  Kernel.v has the one outcome KErr for all of them.
+var ErrNoEnt error = syscall.ENOENT
+var ErrInval error = syscall.EINVAL
+var ErrBusy error = syscall.EBUSY
 
 func (k *Kernel) Clone() *Kernel {
 	c := &Kernel{NextID: k.NextID, NextDev: k.NextDev}
@@ -187,11 +190,36 @@ func (k *Kernel) Mount(src, tgt, fstype string, flags uintptr, data string) erro
 	return nil
 }
 
+// hiddenAt = Kernel.v hidden_at: after the last line whose mountpoint is p there is a line whose
+// mountpoint is a strict ancestor directory of p.  That later mount covers the directory tree p
+// lies in, so the path p no longer leads to the mount recorded at p (see Kernel.v for the rule,
+// its validation on Linux and what it approximates).
+func (k *Kernel) hiddenAt(p string) bool {
+	h := false
+	for i := range k.Tab {
+		switch mp := k.Tab[i].MP; {
+		case mp == p:
+			h = false
+		case under(mp, p):
+			h = true
+		}
+	}
+	return h
+}
+
 func (k *Kernel) Unmount(tgt string, flags int) error {
 	tgt = path.Clean(tgt)
 	top := k.topAt(tgt)
 	if top == nil {
+		if !exists(tgt) {
+			return ErrNoEnt
+		}
 		return ErrInval
+	}
+	if k.hiddenAt(tgt) {
+		// the path resolves into the covering mount: the directory is absent there (ENOENT, an empty
+		// tmpfs or a bind of a directory without it) or present but no mountpoint (EINVAL)
+		return ErrNoEnt
 	}
 	id := top.ID
 	for _, m := range k.Tab {
